@@ -3,7 +3,7 @@
    is unchanged` once blocks declare locals; the bound on local slots
    (SymTabProofs.bound, the LocalCount the table will end with) only grows. *)
 From Coq Require Import ZArith NArith List Bool Lia ZifyBool ZifyNat ZifyN.
-From EvyV Require Import Base SymTab SymTabProofs Bytecode Compile CompileWfProofs.
+From EvyV Require Import Base SymTab SymTabProofs Bytecode Compile CompileSem CompileWfProofs.
 Import ListNotations.
 Open Scope N_scope.
 
